@@ -223,3 +223,7 @@ fn is_private_use(c: char) -> bool {
         || ('\u{F0000}'..='\u{FFFFD}').contains(&c)
         || ('\u{100000}'..='\u{10FFFD}').contains(&c)
 }
+
+#[cfg(kani)]
+#[path = "/verif/kani/cssstring.rs"]
+mod kani_verif;
